@@ -366,3 +366,8 @@ ENGINES = [
 ]
 
 HOOK_COMMITS = ["68a99b4", "f22678a", "4a2a6f1"]
+
+# serves_properties is derived from the tests above (a property served by several packages appears under each)
+for _e in ENGINES:
+    _e["serves_properties"] = sorted(pid for pid, p in PROPS.items()
+                                     if _e["name"] in set([p["pkg"]] + [t.get("pkg", p["pkg"]) for t in p["tests"]]))
